@@ -133,4 +133,11 @@ CHECKS = {
              'originally written the invariant fails (vacuity guard) and that schedule is replayed. Every witness schedule runs on a reusing stream, a non-reusing twin and a scaled twin; TLC judges equality with the fresh solve, activities, proportionality, '
              'top-chemical labelling; sle histories: only the solute moves, never more dissolved than present / than the given solubility, pure solute by melting point.',
         note='Trusted: TLC; activities evaluated with the library\'s own Gamma object; solver numerics not modelled. Known finding: the default pseudo-equilibrium method returns phases with unequal activities.'),
+    'C16': dict(
+        engine='Activity', category='model_checking',
+        technique='TLA+ spec of the gather / normalise / scatter plumbing and instance cache around an uninterpreted group-contribution formula (Activity.tla) model-checked by TLC with two deviation guards; measured quantities of real activity-coefficient objects judged by TLC against the contract clauses',
+        text='TLC explores all pairs of evaluations over every order of every chemical subset: the caller\'s composition is untouched and the value of a chemical does not depend on its position (the originally written gather loop and an unordered cache key are shown to fail). '
+             'Random evaluations of the real UNIFAC / Dortmund / NIST / ideal objects (2-6 chemicals, with and without group data, interior, vertex, near-vertex, trace and edge compositions, 250-450 K) log side effects, ones for chemicals without groups, '
+             'functional form vs object call, permutation difference, pure-component limit and the Gibbs-Duhem residual; TLC judges each.',
+        note='Trusted: TLC; numerical clauses measured in floating point by the driver (central differences for Gibbs-Duhem).'),
 }
